@@ -205,10 +205,27 @@ def gen_rich(rng, P, serial=0):
     pool = ids + ["sX"]
     refs = [rng.choice(pool) for _ in range(rng.choice([0, 0, 1, 1, 2]))]
     doc["S"].append({"id": sid, "refs": refs, "attrs": rand_attrs(rng, CONTENT_PROPS + ["displayAlign"], 1, 3)})
+  forced = None
+  if nstyles >= 3 and rng.random() < 0.35:
+    # a chain (or diamond) of three styles declared BEFORE the styles they reference, each contributing its own property:
+    # chained referential styling must be resolved recursively whatever the declaration order
+    S = doc["S"]
+    diamond = nstyles >= 4 and rng.random() < 0.5
+    S[0]["refs"] = ["s2", "s3"] if diamond else ["s2"]
+    S[1]["refs"] = ["s4"] if diamond else ["s3"]
+    S[2]["refs"] = ["s4"] if diamond else []
+    if diamond:
+      S[3]["refs"] = []
+    props = rng.sample(["color", "fontStyle", "fontWeight", "wrapOption"], 4)
+    for k, st in enumerate(S[:4 if diamond else 3]):
+      st["attrs"] = [[props[k], rng.choice(VALUES[props[k]][1:])]]
+    forced = "s1"
   for p in rng.sample(["color", "backgroundColor", "fontStyle", "visibility", "textAlign", "displayAlign"], rng.choice([0, 0, 0, 1, 2])):
     doc["I"].append([p, rng.choice(VALUES[p])])
 
   def srefs():
+    if forced and rng.random() < 0.4:
+      return [forced]
     if not ids or rng.random() < 0.5:
       return []
     return [rng.choice(ids + ["sX"]) for _ in range(rng.choice([1, 1, 2, 3]))]
